@@ -607,6 +607,26 @@ namespace bloch::update {
             return std::nullopt;
         }
 
+        enum class ChecksumVerdict { Verified, NoChecksums, NoEntry, Mismatch };
+
+        // A download is installed only when checksums.txt was obtained, lists exactly this asset,
+        // and the listed SHA-256 (hex digits in either case) is the archive's.
+        ChecksumVerdict checksumVerdict(const std::optional<std::string>& checksums,
+                                        const std::string& assetName,
+                                        const std::string& actualHash) {
+            if (!checksums)
+                return ChecksumVerdict::NoChecksums;
+            auto expected = parseChecksum(*checksums, assetName);
+            if (!expected)
+                return ChecksumVerdict::NoEntry;
+            std::string listed = *expected;
+            for (char& c : listed) {
+                if (c >= 'A' && c <= 'Z')
+                    c = static_cast<char>(c - 'A' + 'a');
+            }
+            return listed == actualHash ? ChecksumVerdict::Verified : ChecksumVerdict::Mismatch;
+        }
+
         bool extractArchive(const std::filesystem::path& archive, const std::filesystem::path& dest,
                             std::string& error) {
             std::error_code ec;
@@ -801,22 +821,33 @@ namespace bloch::update {
             return false;
         }
 
-        std::string checksums;
-        if (downloadText("github.com", basePath + "/checksums.txt", userAgent(currentVersion),
-                         checksums, err)) {
-            auto expected = parseChecksum(checksums, assetName);
-            if (expected) {
-                std::string hashErr;
-                auto actual = sha256File(archivePath, hashErr);
-                if (actual.empty()) {
-                    std::cerr << "Failed to compute checksum: " << hashErr << std::endl;
-                    return false;
-                }
-                if (*expected != actual) {
-                    std::cerr << "Checksum mismatch for " << assetName << std::endl;
-                    return false;
-                }
-            }
+        std::optional<std::string> checksums;
+        {
+            std::string text;
+            if (downloadText("github.com", basePath + "/checksums.txt", userAgent(currentVersion),
+                             text, err))
+                checksums = text;
+        }
+        std::string hashErr;
+        auto actual = sha256File(archivePath, hashErr);
+        if (actual.empty()) {
+            std::cerr << "Failed to compute checksum: " << hashErr << std::endl;
+            return false;
+        }
+        switch (checksumVerdict(checksums, assetName, actual)) {
+            case ChecksumVerdict::Verified:
+                break;
+            case ChecksumVerdict::NoChecksums:
+                std::cerr << "Unable to download checksums.txt (" << err
+                          << "); not installing an unverified archive." << std::endl;
+                return false;
+            case ChecksumVerdict::NoEntry:
+                std::cerr << "checksums.txt has no entry for " << assetName
+                          << "; not installing an unverified archive." << std::endl;
+                return false;
+            case ChecksumVerdict::Mismatch:
+                std::cerr << "Checksum mismatch for " << assetName << std::endl;
+                return false;
         }
 
         if (!extractArchive(archivePath, tempDir, err)) {
